@@ -353,7 +353,7 @@ theorem filter_drop {α : Type} (p : α → Bool) : ∀ (L : List α) (j : Nat),
         simpa using this
 
 theorem after_eq {s0 : RangedIter.St} (hf : Fresh s0) (cid j : Nat) (h1 : ∀ i, i < j → 10 * (i + 1) < cid)
-    (h2 : cid < 10 * (j + 1)) : s0.cks.toList.filter (fun c => decide (c.id ≥ cid)) = s0.cks.toList.drop j := by
+    (h2 : cid ≤ 10 * (j + 1)) : s0.cks.toList.filter (fun c => decide (c.id ≥ cid)) = s0.cks.toList.drop j := by
   apply filter_drop
   · intro i hi hij
     have := hf.ids i (by simpa using hi)
@@ -362,5 +362,503 @@ theorem after_eq {s0 : RangedIter.St} (hf : Fresh s0) (cid j : Nat) (h1 : ∀ i,
   · intro i hi hij
     have := hf.ids i (by simpa using hi)
     simp; omega
+
+theorem gpf_spec {s0 s : RangedIter.St} (hf : Fresh s0) (hp : s = s0 ∨ Ready s0 s) (cid idx j : Nat)
+    (hj : j ≤ s0.cks.size) (h1 : ∀ i, i < j → 10 * (i + 1) < cid) (h2 : cid < 10 * (j + 1)) :
+    (∃ s' e, RangedIter.getPosForward s cid idx = (s', none, {}, e) ∧ JP s0 j = [] ∧ (Ready s0 s → s' = s) ∧
+        (0 < s0.cks.size → e = (10 * s0.cks.size, (stOf s0 (s0.cks.size - 1)).count))) ∨
+    (∃ s' k np, RangedIter.getPosForward s cid idx = (s', some (10 * (k + 1)), stOf s0 k, (10 * (k + 1), np)) ∧
+        Ready s0 s' ∧ j ≤ k ∧ k < s0.cks.size ∧
+        np < (stOf s0 k).count ∧ (stOf s0 k).minPos ≤ np ∧ np ≤ (stOf s0 k).maxPos ∧ JP s0 j = rem s0 k np) := by
+  have hck : s.cks = s0.cks := by
+    rcases hp with rfl | h
+    · rfl
+    · exact h.cks
+  unfold RangedIter.getPosForward
+  simp only [hck]
+  by_cases h0 : s0.cks.size = 0
+  · left
+    have : s0.cks.toList.isEmpty = true := by simp; exact Array.eq_empty_of_size_eq_zero h0
+    rw [if_pos this]
+    exact ⟨_, _, rfl, JP_end s0 j (by omega), fun _ => rfl, fun h => by omega⟩
+  · have : ¬ s0.cks.toList.isEmpty = true := by
+      simp; intro h; rw [h] at h0; simp at h0
+    rw [if_neg this, after_eq hf cid j h1 (by omega)]
+    by_cases hjs : j = s0.cks.size
+    · have hd : s0.cks.toList.drop j = [] := List.drop_eq_nil_of_le (by simp; omega)
+      rw [hd]
+      simp only []
+      left
+      refine ⟨s, _, rfl, JP_end s0 j (by omega), fun _ => rfl, fun hpos => ?_⟩
+      have hlast : s0.cks.toList.getLast! = s0.cks[s0.cks.size - 1]'(by omega) := by
+        apply List.getLast!_of_getLast?
+        rw [List.getLast?_eq_getElem?]
+        simp
+      rw [hlast, hf.ids _ (by omega), stOf_count s0 _ (by omega)]
+      have : s0.cks.size - 1 + 1 = s0.cks.size := by omega
+      rw [this]
+    · have hjs' : j < s0.cks.size := by omega
+      have hl : j < s0.cks.toList.length := by simpa using hjs'
+      have hd := List.drop_eq_getElem_cons hl
+      have hid : (s0.cks.toList[j]).id = 10 * (j + 1) := by simpa using hf.ids j hjs'
+      split
+      · rename_i heq
+        rw [hd] at heq
+        simp at heq
+      · rename_i c0 tail heq
+        have hc0 : c0 = s0.cks.toList[j] := by
+          rw [hd] at heq
+          simp at heq
+          exact heq.1.symm
+        have hne : (c0.id != cid) = true := by
+          rw [hc0, hid]; simp; omega
+        rw [if_pos hne]
+        rcases go_spec hf (s0.cks.size - j) j (by omega) s ((s0.cks.toList.drop j).length + 1) c0 0 hp
+            (by simp) with ⟨s', h1', h2', h3'⟩ | h
+        · left
+          refine ⟨s', _, h1', h2', h3', fun _ => ?_⟩
+          have : ¬ (s0.cks.size - j = 0) := by omega
+          rw [if_neg this]
+        · right
+          exact h
+
+/-! ## 5. the chunk iterator (forward) -/
+
+theorem ciSetPos_open (cnt chunk np : Nat) (h : np ≤ cnt) :
+    ciSetPos cnt { chunk := chunk } (np : Int) = { chunk := chunk, pos := (np : Int), cached := false } := by
+  unfold ciSetPos
+  by_cases h0 : np = 0
+  · subst h0; simp
+  · have h1 : ¬ ((np : Int) > (cnt : Int)) := by omega
+    have h2 : ¬ ((np : Int) < 0) := by omega
+    have h3 : ((np : Int) == (0 : Int)) = false := by simp; omega
+    simp only [h3, h1, h2, if_false, Bool.false_eq_true]
+
+theorem ciGet_cached (cnt : Nat) (c : CIt) (h : c.cached = true) : ciGet cnt false c = (c, true) := by
+  unfold ciGet
+  simp [h]
+
+theorem ciGet_in (cnt chunk p : Nat) (h : p < cnt) :
+    ciGet cnt false { chunk := chunk, pos := (p : Int), cached := false } =
+      ({ chunk := chunk, pos := (p : Int), cached := true }, true) := by
+  unfold ciGet
+  have h1 : ¬ ((p : Int) < 0) := by omega
+  have h2 : ¬ ((p : Int) ≥ (cnt : Int)) := by omega
+  simp [h1, h2]
+
+theorem ciGet_out (cnt chunk p : Nat) (h : cnt ≤ p) :
+    ciGet cnt false { chunk := chunk, pos := (p : Int), cached := false } =
+      ({ chunk := chunk, pos := (p : Int), cached := false }, false) := by
+  unfold ciGet
+  have h1 : ¬ ((p : Int) < 0) := by omega
+  have h2 : ((p : Int) ≥ (cnt : Int)) := by omega
+  simp [h1, h2]
+
+theorem ciNext_cached (cnt chunk p : Nat) :
+    ciNext cnt false { chunk := chunk, pos := (p : Int), cached := true } =
+      { chunk := chunk, pos := ((p + 1 : Nat) : Int), cached := false } := by
+  unfold ciNext
+  rw [ciGet_cached _ _ rfl]
+  simp
+
+/-- chunk `k` is open at position `p` (inside its window) -/
+structure OpenAt (s0 s : RangedIter.St) (k p : Nat) (cached : Bool) : Prop where
+  ready : Ready s0 s
+  hk : k < s0.cks.size
+  ci : s.ci = some { chunk := 10 * (k + 1), pos := (p : Int), cached := cached }
+  cst : s.cst = some (stOf s0 k)
+  cid : s.cid = 10 * (k + 1)
+  lo : (stOf s0 k).minPos ≤ p
+  hi : p ≤ (stOf s0 k).maxPos
+
+theorem ensure_closed {s0 s : RangedIter.St} (hf : Fresh s0) (hp : s = s0 ∨ Ready s0 s) (hci : s.ci = none)
+    (hb : s.bkwd = false) (j : Nat) (hj : j ≤ s0.cks.size) (h1 : ∀ i, i < j → 10 * (i + 1) < s.cid)
+    (h2 : s.cid < 10 * (j + 1)) :
+    (∃ s', RangedIter.ensure s = (s', true) ∧ JP s0 j = [] ∧
+      (Ready s0 s → 0 < s0.cks.size → Ready s0 s' ∧ s'.ci = none ∧ s'.cid = 10 * s0.cks.size ∧
+        s'.idx = (stOf s0 (s0.cks.size - 1)).count)) ∨
+    (∃ s' k np, RangedIter.ensure s = (s', false) ∧ OpenAt s0 s' k np false ∧ j ≤ k ∧ np < (stOf s0 k).count ∧
+      JP s0 j = rem s0 k np) := by
+  unfold RangedIter.ensure
+  simp only [hci, hb, Bool.false_eq_true, if_false]
+  rcases gpf_spec hf hp s.cid s.idx j hj h1 h2 with ⟨s', e, hg, hJ, hs, he⟩ | ⟨s', k, np, hg, hr, hjk, hk, hn, hlo, hhi, hJ⟩
+  · left
+    rw [hg]
+    simp only []
+    refine ⟨_, rfl, hJ, fun hrd hpos => ?_⟩
+    have := hs hrd
+    subst this
+    rw [he hpos, if_neg (by rw [hb]; simp)]
+    exact ⟨⟨hrd.cks, hrd.tss, hrd.rmin, hrd.rmax, hrd.stats, hrd.bkwd⟩, hci, rfl, rfl⟩
+  · right
+    rw [hg]
+    simp only []
+    refine ⟨_, k, np, rfl, ?_, hjk, hn, hJ⟩
+    have hcnt : RangedIter.cntOfS { s' with cid := 10 * (k + 1), idx := np } (10 * (k + 1)) = (stOf s0 k).count := by
+      rw [cntOfS_eq hf (by exact hr.cks) k hk, stOf_count s0 k hk]
+    rw [hcnt, ciSetPos_open _ _ _ (by omega)]
+    exact ⟨⟨hr.cks, hr.tss, hr.rmin, hr.rmax, hr.stats, hr.bkwd⟩, hk, rfl, rfl, rfl, hlo, hhi⟩
+
+theorem advance_fwd (s : RangedIter.St) (c : CIt) (hci : s.ci = some c) (hb : s.bkwd = false) (hpos : c.pos ≥ 0)
+    (r : RangedIter.St × Bool)
+    (hr : RangedIter.ensure { s with ci := none, cst := none, cid := s.cid + 1, idx := 0 } = r) :
+    RangedIter.advance s =
+      (if r.2 = true ∧ r.1.cid = s.cid then ({ r.1 with cid := s.cid, idx := c.pos.toNat }, true) else r) := by
+  have g : Generated.C02.advanceChunkKeepsIteratorPos = true := by decide
+  subst hr
+  cases s with
+  | mk cks cidx tss rmin rmax stats rr cid idx ci cst bkwd fv fle =>
+  simp only at hci hb
+  subst hci hb
+  unfold RangedIter.advance
+  simp only [hpos, g, if_true, Bool.false_eq_true, if_false, Bool.true_and, Bool.not_false, Bool.and_true]
+  generalize RangedIter.ensure _ = r
+  cases r with
+  | mk a b =>
+  cases b <;> simp
+
+theorem eof_again {s0 s : RangedIter.St} (hf : Fresh s0) (hr : Ready s0 s) (hci : s.ci = none) (m : Nat)
+    (hm : s0.cks.size = m + 1) (hcid : s.cid = 10 * (m + 1))
+    (hx : max (stOf s0 m).minPos s.idx ≥ (stOf s0 m).count ∨ max (stOf s0 m).minPos s.idx > (stOf s0 m).maxPos) :
+    ∃ s', RangedIter.ensure s = (s', true) := by
+  unfold RangedIter.ensure
+  simp only [hci, hr.bkwd, Bool.false_eq_true, if_false]
+  unfold RangedIter.getPosForward
+  simp only [hr.cks]
+  have hne : ¬ s0.cks.toList.isEmpty = true := by
+    simp; intro h; rw [h] at hm; simp at hm
+  rw [if_neg hne, after_eq hf s.cid m (by intro i hi; omega) (by omega)]
+  have hl : m < s0.cks.toList.length := by simp; omega
+  have hd := List.drop_eq_getElem_cons hl
+  have hd2 : s0.cks.toList.drop (m + 1) = [] := List.drop_eq_nil_of_le (by simp; omega)
+  have hid : (s0.cks.toList[m]).id = 10 * (m + 1) := by simpa using hf.ids m (by omega)
+  rw [hd, hd2]
+  simp only [hid, hcid, bne_self_eq_false, Bool.false_eq_true, if_false, List.length_cons, List.length_nil]
+  rw [RangedIter.getPosForward.go, hid, getStatus_ready hf hr m (by omega)]
+  simp only []
+  rw [checkAdvance_eq, if_pos hx]
+  simp only [Bool.false_eq_true, if_false]
+  rw [RangedIter.getPosForward.go]
+  exact ⟨_, rfl⟩
+
+/-- the cursor is at the end of the data (position: last chunk, an index its status refuses): every further
+`ensure` reports EOF again -/
+structure AtEof (s0 s : RangedIter.St) : Prop where
+  ready : Ready s0 s
+  ci : s.ci = none
+  last : ∃ m, s0.cks.size = m + 1 ∧ s.cid = 10 * (m + 1) ∧
+    (max (stOf s0 m).minPos s.idx ≥ (stOf s0 m).count ∨ max (stOf s0 m).minPos s.idx > (stOf s0 m).maxPos)
+
+theorem AtEof.eof {s0 s : RangedIter.St} (hf : Fresh s0) (h : AtEof s0 s) : ∃ s', RangedIter.ensure s = (s', true) := by
+  obtain ⟨m, hm, hcid, hx⟩ := h.last
+  exact eof_again hf h.ready h.ci m hm hcid hx
+
+theorem advance_spec {s0 s : RangedIter.St} {r : RangedIter.St × Bool} (hA : RangedIter.advance s = r)
+    (hf : Fresh s0) (hr : Ready s0 s) (k q : Nat) (cached : Bool)
+    (hk : k < s0.cks.size) (hcid : s.cid = 10 * (k + 1))
+    (hci : s.ci = some { chunk := 10 * (k + 1), pos := (q : Int), cached := cached })
+    (hlo : (stOf s0 k).minPos ≤ q) (hout : q ≥ (stOf s0 k).count ∨ q > (stOf s0 k).maxPos) :
+    (∃ s', r = (s', true) ∧ JP s0 (k + 1) = [] ∧ AtEof s0 s') ∨
+    (∃ s' k' np, r = (s', false) ∧ OpenAt s0 s' k' np false ∧ np < (stOf s0 k').count ∧
+      JP s0 (k + 1) = rem s0 k' np) := by
+  subst hA
+  have hr1 : Ready s0 { s with ci := none, cst := none, cid := s.cid + 1, idx := 0 } :=
+    ⟨hr.cks, hr.tss, hr.rmin, hr.rmax, hr.stats, hr.bkwd⟩
+  rcases ensure_closed hf (Or.inr hr1) rfl hr.bkwd (k + 1) (by omega)
+      (by intro i hi; show 10 * (i + 1) < s.cid + 1; omega) (by show s.cid + 1 < _; omega) with
+    ⟨s', he, hJ, hs⟩ | ⟨s', k', np, he, ho, hkk, hn, hJ⟩
+  · left
+    obtain ⟨hr', hci', hcid', hidx'⟩ := hs hr1 (by omega)
+    rw [advance_fwd s _ hci hr.bkwd (by simp) _ he]
+    simp only [true_and]
+    obtain ⟨m, hm⟩ : ∃ m, s0.cks.size = m + 1 := ⟨s0.cks.size - 1, by omega⟩
+    have hm' : s0.cks.size - 1 = m := by omega
+    rw [hm'] at hidx'
+    by_cases hc : s'.cid = s.cid
+    · rw [if_pos hc]
+      refine ⟨_, rfl, hJ, ⟨hr'.cks, hr'.tss, hr'.rmin, hr'.rmax, hr'.stats, hr'.bkwd⟩, hci', ?_⟩
+      have hkm : k = m := by omega
+      subst hkm
+      refine ⟨k, hm, hcid, ?_⟩
+      show max (stOf s0 k).minPos (Int.toNat (q : Int)) ≥ _ ∨ max (stOf s0 k).minPos (Int.toNat (q : Int)) > _
+      rw [Int.toNat_natCast]
+      omega
+    · rw [if_neg hc]
+      refine ⟨_, rfl, hJ, hr', hci', m, hm, by rw [hcid', hm], ?_⟩
+      rw [hidx']
+      omega
+  · right
+    rw [advance_fwd s _ hci hr.bkwd (by simp) _ he]
+    simp only [Bool.false_eq_true, false_and, if_false]
+    exact ⟨s', k', np, rfl, ho, hn, hJ⟩
+
+/-! ## 6. `Get` and `Next` -/
+
+theorem ciGet_open (cnt chunk p : Nat) (cached : Bool) (h : p < cnt) :
+    ciGet cnt false { chunk := chunk, pos := (p : Int), cached := cached } =
+      ({ chunk := chunk, pos := (p : Int), cached := true }, true) := by
+  cases cached
+  · exact ciGet_in cnt chunk p h
+  · exact ciGet_cached _ _ rfl
+
+theorem loop_in {s0 s : RangedIter.St} (hf : Fresh s0) (k p : Nat) (cached : Bool) (ho : OpenAt s0 s k p cached)
+    (hp : p < (stOf s0 k).count) (f : Nat) :
+    RangedIter.itGet.loop (f + 1) s =
+      ({ s with ci := some { chunk := 10 * (k + 1), pos := (p : Int), cached := true } }, some (10 * (k + 1), p)) ∧
+    OpenAt s0 { s with ci := some { chunk := 10 * (k + 1), pos := (p : Int), cached := true } } k p true := by
+  constructor
+  · rw [RangedIter.itGet.loop]
+    simp only [ho.ci, ho.ready.bkwd]
+    rw [cntOfS_eq hf ho.ready.cks k ho.hk, ← stOf_count s0 k ho.hk, ciGet_open _ _ _ _ hp]
+    simp
+  · exact ⟨⟨ho.ready.cks, ho.ready.tss, ho.ready.rmin, ho.ready.rmax, ho.ready.stats, ho.ready.bkwd⟩, ho.hk, rfl,
+      ho.cst, ho.cid, ho.lo, ho.hi⟩
+
+theorem loop_spec {s0 s : RangedIter.St} (hf : Fresh s0) (k p : Nat) (cached : Bool) (ho : OpenAt s0 s k p cached)
+    (hc : cached = true → p < (stOf s0 k).count) (f : Nat) :
+    (∃ s', RangedIter.itGet.loop (f + 2) s = (s', none) ∧ rem s0 k p = []) ∨
+    (∃ s' k' p', RangedIter.itGet.loop (f + 2) s = (s', some (10 * (k' + 1), p')) ∧ OpenAt s0 s' k' p' true ∧
+      p' < (stOf s0 k').count ∧ rem s0 k p = rem s0 k' p') := by
+  by_cases hp : p < (stOf s0 k).count
+  · right
+    obtain ⟨h1, h2⟩ := loop_in hf k p cached ho hp (f + 1)
+    exact ⟨_, k, p, h1, h2, hp, rfl⟩
+  · have hcf : cached = false := by
+      cases cached
+      · rfl
+      · exact absurd (hc rfl) hp
+    subst hcf
+    rw [RangedIter.itGet.loop]
+    simp only [ho.ci, ho.ready.bkwd]
+    rw [cntOfS_eq hf ho.ready.cks k ho.hk, ← stOf_count s0 k ho.hk, ciGet_out _ _ _ (by omega)]
+    simp only [Bool.false_eq_true, if_false]
+    have hrem : rem s0 k p = JP s0 (k + 1) := rem_nil s0 k p (Or.inl (by omega))
+    generalize hA : RangedIter.advance _ = r
+    rcases advance_spec hA
+        hf ⟨ho.ready.cks, ho.ready.tss, ho.ready.rmin, ho.ready.rmax, ho.ready.stats, by first | rfl | exact ho.ready.bkwd⟩
+        k p false ho.hk
+        ho.cid rfl ho.lo (Or.inl (by omega)) with ⟨s', rfl, hJ, _⟩ | ⟨s', k', np, rfl, ho', hn, hJ⟩
+    · left
+      exact ⟨s', by simp, by rw [hrem, hJ]⟩
+    · right
+      simp only [Bool.false_eq_true, if_false]
+      obtain ⟨h1, h2⟩ := loop_in hf k' np false ho' hn f
+      exact ⟨_, k', np, h1, h2, hn, by rw [hrem, hJ]⟩
+
+/-- the cursor's position and what remains to be delivered from there -/
+def Pos' (s0 s : RangedIter.St) (R : List (Nat × Nat)) : Prop :=
+  (∃ k p, OpenAt s0 s k p false ∧ R = rem s0 k p) ∨ (AtEof s0 s ∧ R = [])
+
+/-- … including the fresh cursor -/
+def Pos (s0 s : RangedIter.St) (R : List (Nat × Nat)) : Prop :=
+  (s = s0 ∧ R = JP s0 0) ∨ Pos' s0 s R
+
+theorem Pos'.upd {s0 s : RangedIter.St} {R : List (Nat × Nat)} (h : Pos' s0 s R) (fv : Bool) (fl : Option (Nat × Nat)) :
+    Pos' s0 { s with fValid := fv, fLe := fl } R := by
+  rcases h with ⟨k, p, ho, hR⟩ | ⟨he, hR⟩
+  · left
+    exact ⟨k, p, ⟨⟨ho.ready.cks, ho.ready.tss, ho.ready.rmin, ho.ready.rmax, ho.ready.stats, ho.ready.bkwd⟩,
+      ho.hk, ho.ci, ho.cst, ho.cid, ho.lo, ho.hi⟩, hR⟩
+  · right
+    exact ⟨⟨⟨he.ready.cks, he.ready.tss, he.ready.rmin, he.ready.rmax, he.ready.stats, he.ready.bkwd⟩, he.ci, he.last⟩, hR⟩
+
+theorem OpenAt.upd {s0 s : RangedIter.St} {k p : Nat} {c : Bool} (ho : OpenAt s0 s k p c) (fv : Bool)
+    (fl : Option (Nat × Nat)) : OpenAt s0 { s with fValid := fv, fLe := fl } k p c :=
+  ⟨⟨ho.ready.cks, ho.ready.tss, ho.ready.rmin, ho.ready.rmax, ho.ready.stats, ho.ready.bkwd⟩,
+      ho.hk, ho.ci, ho.cst, ho.cid, ho.lo, ho.hi⟩
+
+theorem itGet_open {s0 s : RangedIter.St} (hf : Fresh s0) (k p : Nat) (cached : Bool) (ho : OpenAt s0 s k p cached)
+    (hc : cached = true → p < (stOf s0 k).count) :
+    (∃ s', RangedIter.itGet s = (s', none) ∧ rem s0 k p = []) ∨
+    (∃ s' k' p', RangedIter.itGet s = (s', some (10 * (k' + 1), p')) ∧ OpenAt s0 s' k' p' true ∧
+      p' < (stOf s0 k').count ∧ rem s0 k p = rem s0 k' p') := by
+  have he : RangedIter.ensure s = (s, false) := by
+    unfold RangedIter.ensure
+    simp only [ho.ci]
+  unfold RangedIter.itGet
+  rw [he]
+  simp only [Bool.false_eq_true, if_false]
+  exact loop_spec hf k p cached ho hc s.cks.size
+
+theorem itGet_spec {s0 s : RangedIter.St} (hf : Fresh s0) (R : List (Nat × Nat)) (hpos : Pos s0 s R) :
+    (∃ s', RangedIter.itGet s = (s', none) ∧ R = []) ∨
+    (∃ s' k p, RangedIter.itGet s = (s', some (10 * (k + 1), p)) ∧ OpenAt s0 s' k p true ∧
+      p < (stOf s0 k).count ∧ R = rem s0 k p) := by
+  rcases hpos with ⟨rfl, hR⟩ | ⟨k, p, ho, hR⟩ | ⟨he, hR⟩
+  · rcases ensure_closed hf (Or.inl rfl) hf.ci hf.fwd 0 (Nat.zero_le _) (by intro i hi; omega) (by rw [hf.cid]; omega)
+      with ⟨s', he, hJ, _⟩ | ⟨s', k, np, he, ho, _, hn, hJ⟩
+    · left
+      unfold RangedIter.itGet
+      rw [he]
+      exact ⟨s', by simp, by rw [hR, hJ]⟩
+    · right
+      unfold RangedIter.itGet
+      rw [he]
+      simp only [Bool.false_eq_true, if_false]
+      obtain ⟨h1, h2⟩ := loop_in hf k np false ho hn (s'.cks.size + 1)
+      exact ⟨_, k, np, h1, h2, hn, by rw [hR, hJ]⟩
+  · subst hR
+    exact itGet_open hf k p false ho (by intro h; cases h)
+  · left
+    obtain ⟨s', hs'⟩ := he.eof hf
+    unfold RangedIter.itGet
+    rw [hs']
+    exact ⟨s', by simp, hR⟩
+
+theorem itNext_spec {s0 s : RangedIter.St} (hf : Fresh s0) (k p : Nat) (ho : OpenAt s0 s k p true)
+    (hp : p < (stOf s0 k).count) : Pos' s0 (RangedIter.itNext s) (rem s0 k (p + 1)) := by
+  have he : RangedIter.ensure s = (s, false) := by
+    unfold RangedIter.ensure
+    simp only [ho.ci]
+  obtain ⟨h1, h2⟩ := loop_in hf k p true ho hp (s.cks.size + 1)
+  have hg : RangedIter.itGet s =
+      ({ s with ci := some { chunk := 10 * (k + 1), pos := (p : Int), cached := true } }, some (10 * (k + 1), p)) := by
+    unfold RangedIter.itGet
+    rw [he]
+    simp only [Bool.false_eq_true, if_false]
+    exact h1
+  unfold RangedIter.itNext
+  rw [hg]
+  simp only [ho.cst, ho.ready.bkwd]
+  rw [cntOfS_eq hf (by exact ho.ready.cks) k ho.hk, ciNext_cached]
+  by_cases hout : p + 1 > (stOf s0 k).maxPos
+  · have hcond : (decide (((p + 1 : Nat) : Int) < 0) || decide ((((p + 1 : Nat) : Int)).toNat < (stOf s0 k).minPos) ||
+        decide ((((p + 1 : Nat) : Int)).toNat > (stOf s0 k).maxPos)) = true := by
+      rw [Int.toNat_natCast]; simp; omega
+    simp only [hcond, if_true]
+    generalize hA : RangedIter.advance _ = r
+    rcases advance_spec hA
+        hf ⟨ho.ready.cks, ho.ready.tss, ho.ready.rmin, ho.ready.rmax, ho.ready.stats, by first | rfl | exact ho.ready.bkwd⟩
+        k (p + 1) false
+        ho.hk ho.cid rfl (by have := ho.lo; omega) (Or.inr hout) with ⟨s', rfl, hJ, hE⟩ | ⟨s', k', np, rfl, ho', hn, hJ⟩
+    · right
+      exact ⟨hE, by rw [rem_nil s0 k (p + 1) (Or.inr hout), hJ]⟩
+    · left
+      exact ⟨k', np, ho', by rw [rem_nil s0 k (p + 1) (Or.inr hout), hJ]⟩
+  · have hcond : (decide (((p + 1 : Nat) : Int) < 0) || decide ((((p + 1 : Nat) : Int)).toNat < (stOf s0 k).minPos) ||
+        decide ((((p + 1 : Nat) : Int)).toNat > (stOf s0 k).maxPos)) = false := by
+      rw [Int.toNat_natCast]
+      have := ho.lo
+      simp; omega
+    simp only [hcond, Bool.false_eq_true, if_false]
+    left
+    refine ⟨k, p + 1, ⟨⟨ho.ready.cks, ho.ready.tss, ho.ready.rmin, ho.ready.rmax, ho.ready.stats,
+      by first | rfl | exact ho.ready.bkwd⟩,
+      ho.hk, rfl, by first | rfl | exact ho.cst, ho.cid, by have := ho.lo; omega, by omega⟩, rfl⟩
+
+/-! ## 7. the cursor: `fiterator`'s range re-check, and the scan -/
+
+theorem tsAt_eq {s0 s : RangedIter.St} (hf : Fresh s0) (hc : s.cks = s0.cks) (ht : s.tss = s0.tss) (k p : Nat)
+    (hk : k < s0.cks.size) : RangedIter.tsAt s (10 * (k + 1), p) = PipeRead.tsOfPos s0 (k, p) := by
+  unfold RangedIter.tsAt RangedIter.chunkIndexOf PipeRead.tsOfPos
+  have e : 10 * (k + 1) / 10 - 1 = k := by omega
+  simp only [e, hc, ht]
+  simp [hk, hf.ids k hk]
+
+/-- the range re-check on a position of the abstract scan -/
+def fit (s0 : RangedIter.St) (kp : Nat × Nat) : Bool :=
+  RangedIter.fitInRange s0.rmin s0.rmax (PipeRead.tsOfPos s0 kp)
+
+def out (kp : Nat × Nat) : Nat × Nat := (10 * (kp.1 + 1), kp.2)
+
+theorem curNext_pos {s0 s : RangedIter.St} (hf : Fresh s0) (k p : Nat) (ho : OpenAt s0 s k p true)
+    (hp : p < (stOf s0 k).count) :
+    Pos s0 (RangedIter.curNext s) (rem s0 k (p + 1)) ∧ (RangedIter.curNext s).fValid = false := by
+  unfold RangedIter.curNext
+  exact ⟨Or.inr ((itNext_spec hf k p ho hp).upd false none), rfl⟩
+
+theorem curGet_spec {s0 : RangedIter.St} (hf : Fresh s0) : ∀ (g : Nat) (s : RangedIter.St) (R : List (Nat × Nat)),
+    Pos s0 s R → s.fValid = false → R.length + 1 ≤ g →
+    (∃ s', RangedIter.curGet g s = (s', none) ∧ R.filter (fit s0) = []) ∨
+    (∃ s' kp R', RangedIter.curGet g s = (s', some (out kp)) ∧ R.filter (fit s0) = kp :: R'.filter (fit s0) ∧
+      R'.length < R.length ∧ Pos s0 (RangedIter.curNext s') R' ∧ (RangedIter.curNext s').fValid = false) := by
+  intro g
+  induction g with
+  | zero => intro s R _ _ h; omega
+  | succ g ih =>
+    intro s R hpos hfv hg
+    rw [RangedIter.curGet]
+    simp only [hfv, Bool.false_eq_true, if_false]
+    rcases itGet_spec hf R hpos with ⟨s1, h1, hR⟩ | ⟨s1, k, p, h1, ho, hp, hR⟩
+    · left
+      rw [h1]
+      exact ⟨_, rfl, by rw [hR]; rfl⟩
+    · rw [h1]
+      simp only []
+      have hcond : RangedIter.fitInRange s1.rmin s1.rmax (RangedIter.tsAt s1 (10 * (k + 1), p)) = fit s0 (k, p) := by
+        rw [tsAt_eq hf ho.ready.cks ho.ready.tss k p ho.hk, ho.ready.rmin, ho.ready.rmax]; rfl
+      rw [hcond]
+      have hRc : R = (k, p) :: rem s0 k (p + 1) := by rw [hR, rem_cons s0 k p hp ho.hi]
+      by_cases hfit : fit s0 (k, p) = true
+      · right
+        rw [if_pos hfit]
+        obtain ⟨hP, hV⟩ := curNext_pos hf k p (ho.upd true (some (10 * (k + 1), p))) hp
+        refine ⟨_, (k, p), rem s0 k (p + 1), rfl, ?_, by rw [hRc]; simp, hP, hV⟩
+        rw [hRc, List.filter_cons_of_pos hfit]
+      · have hfit' := hfit
+        unfold fit at hfit'
+        rw [if_neg hfit]
+        obtain ⟨hP, hV⟩ := curNext_pos hf k p (ho.upd s1.fValid (some (10 * (k + 1), p))) hp
+        have hlen : (rem s0 k (p + 1)).length + 1 ≤ g := by
+          rw [hRc] at hg; simp at hg; omega
+        have hflt : R.filter (fit s0) = (rem s0 k (p + 1)).filter (fit s0) := by
+          rw [hRc, List.filter_cons_of_neg hfit]
+        rcases ih _ _ hP hV hlen with ⟨s', h2, h3⟩ | ⟨s', kp, R', h2, h3, h4, h5, h6⟩
+        · left
+          exact ⟨s', h2, by rw [hflt, h3]⟩
+        · right
+          exact ⟨s', kp, R', h2, by rw [hflt, h3], by rw [hRc]; simp; omega, h5, h6⟩
+
+theorem run_spec {s0 : RangedIter.St} (hf : Fresh s0) : ∀ (f : Nat) (s : RangedIter.St) (R : List (Nat × Nat))
+    (inPage : Nat) (acc : Array (Nat × Nat)),
+    Pos s0 s R → s.fValid = false → R.length + 1 ≤ f →
+    (RangedIter.scan.run 0 f s inPage acc).2.toList = acc.toList ++ (R.filter (fit s0)).map out := by
+  intro f
+  induction f with
+  | zero => intro s R _ _ _ _ h; omega
+  | succ f ih =>
+    intro s R inPage acc hpos hfv hg
+    rw [RangedIter.scan.run]
+    rcases curGet_spec hf (f + 1) s R hpos hfv hg with ⟨s', h1, h2⟩ | ⟨s', kp, R', h1, h2, h3, h4, h5⟩
+    · rw [h1, h2]
+      simp
+    · rw [h1]
+      simp only [bne_self_eq_false, Bool.false_and, Bool.false_eq_true, if_false]
+      rw [ih _ R' _ _ h4 h5 (by omega), h2]
+      simp
+
+theorem journalPositions_length : ∀ (cs : List ChkSt) (k : Nat),
+    (PartScan.journalPositions cs k).length ≤ (cs.map (·.count)).sum := by
+  intro cs
+  induction cs with
+  | nil => intro k; simp [PartScan.journalPositions]
+  | cons st rest ih =>
+    intro k
+    simp only [PartScan.journalPositions, List.length_append, List.length_map, List.map_cons, List.sum_cons]
+    have := ih (k + 1)
+    rw [PartScan.windowPositions_eq, List.length_range']
+    omega
+
+theorem JP_zero_length (s0 : RangedIter.St) : (JP s0 0).length ≤ total s0 := by
+  unfold JP total
+  rw [List.drop_zero]
+  refine Nat.le_trans (journalPositions_length _ 0) (Nat.le_of_eq ?_)
+  rw [statuses_eq, List.map_map]
+  congr 1
+  apply List.map_congr_left
+  intro c _
+  exact stFn_count s0 c
+
+/-- **the stateful iterator of the pipeline model delivers the abstract scan**: a fresh forward cursor without paging
+(`page = 0`), with enough fuel, returns exactly `PipeRead.absScan` (positions as (chunk id, index)). -/
+theorem scan_eq_absScan (s : RangedIter.St) (hf : Fresh s) (fuel : Nat) (hfuel : total s + 2 ≤ fuel) :
+    (RangedIter.scan s 0 fuel).2.toList = (PipeRead.absScan s).map (fun kp => (10 * (kp.1 + 1), kp.2)) := by
+  unfold RangedIter.scan
+  have hlen := JP_zero_length s
+  rw [run_spec hf fuel s (JP s 0) 0 #[] (Or.inl ⟨rfl, rfl⟩) hf.fValid (by omega)]
+  unfold PipeRead.absScan
+  rw [PartScan.scanAll_eq]
+  simp only [JP, List.drop_zero, Array.toList_empty, List.nil_append]
+  rfl
 
 end Logrange.PipeScan
